@@ -90,3 +90,35 @@ out = {"first_elastic_frequency_offset_0": f0, "first_elastic_frequency_offset_4
     r['input'] = 'all-free isotropic plate a=1, b=.7, t=10mm, m=n=8; reference surface moved by 4 mm'
     _CACHE['massinv'] = r
     return r
+
+
+def strain_nl_terms():
+    """the quadratic slope terms reported by Panel.strain against 1/2 w,x^2 etc. built from the package's own rotations
+    (phix = -w,x, phiy = -w,y)"""
+    if 'nl' in _CACHE:
+        return _CACHE['nl']
+    script = '''
+import numpy as np
+from compmech.panel import Panel
+p = Panel(a=1., b=0.7, stack=[0, 90, 90, 0], plyt=1.25e-4, laminaprop=(142.5e9, 8.7e9, 0.28, 5.1e9, 5.1e9, 5.1e9), m=6, n=6)
+p.calc_k0(silent=True)
+c = np.zeros(p.get_size())
+c[3*(4*p.m + 4) + 2] = 1e-3
+c[3*(5*p.m + 4) + 2] = -0.7e-3
+xs = np.array([0.31, 0.52]); ys = np.array([0.22, 0.41])
+lin = p.strain(c, xs=xs, ys=ys, NLterms=False)
+nl = p.strain(c, xs=xs, ys=ys, NLterms=True)
+u, v, w, phix, phiy = p.uvw(c, xs=xs, ys=ys)
+out = {"exx_NL_part_reported": (nl['exx'] - lin['exx']).tolist(), "half_wx_squared": (0.5*phix**2).tolist(),
+       "gxy_NL_part_reported": (nl['gxy'] - lin['gxy']).tolist(), "wx_times_wy": (phix*phiy).tolist()}
+'''
+    r = run_real(script, {})
+    try:
+        import numpy as np
+        a = np.array(r['exx_NL_part_reported']); b = np.array(r['half_wx_squared'])
+        r['reproduced'] = bool(np.abs(a - b).max() > 1e-6 * np.abs(b).max())
+    except Exception:
+        r['reproduced'] = bool(r.get('raised'))
+    r['input'] = 'simply supported plate a=1,b=.7,m=n=6 with two active w amplitudes (i=4,j=4: 1e-3; i=4,j=5: -0.7e-3), points (0.31,0.22),(0.52,0.41)'
+    _CACHE['nl'] = r
+    return r
